@@ -79,3 +79,27 @@ REPLAYS.update({
     "node-data-input-dict-runtimeerror": node_data_input_dict_runtimeerror,
     "surface-deposition-not-enabled-by-override": surface_deposition_not_enabled_by_override,
 })
+
+
+def distribution_leakage_bounced():
+    """a Distribution with leakage whose groundwater cannot take the leak hands it to the consumer on top of the request"""
+    from wsimod.arcs.arcs import Arc
+    from wsimod.nodes.distribution import Distribution
+    from wsimod.nodes.nodes import Node
+    from wsimod.nodes.storage import Groundwater, Reservoir
+    import contextlib
+    import io
+    src = Reservoir(name="r", capacity=1000, initial_storage=1000)
+    d = Distribution(name="d", leakage=0.1)
+    gw = Groundwater(name="g", capacity=0.5, area=1)          # takes 0.5 of the 1.0 that leaks
+    user = Node(name="u")
+    Arc(name="a1", in_port=src, out_port=d)
+    Arc(name="a2", in_port=d, out_port=gw)
+    a3 = Arc(name="a3", in_port=d, out_port=user)
+    with contextlib.redirect_stdout(io.StringIO()):
+        x = a3.send_pull_check({"volume": 9.0})["volume"]
+        got = a3.send_pull_request({"volume": 9.0})["volume"]
+    return got > 9.0 + 1e-9, f"check offered {x:.4f} for a request of 9, the pull of 9 returned {got:.4f} (groundwater took 0.5 of the 1.0 leaked)"
+
+
+REPLAYS["distribution-leakage-bounced-to-consumer"] = distribution_leakage_bounced
